@@ -1,6 +1,8 @@
 use crate::report::{Ctx, Report, Spec};
 pub mod broad;
 pub mod c03;
+pub mod c04;
+pub mod c05;
 pub mod c06;
 pub mod c07;
 pub mod c13;
@@ -15,6 +17,8 @@ pub fn dispatch(ctx: &Ctx) -> Option<(Spec, Report)> {
         "C01" => wire::run(ctx, 1),
         "C02" => wire::run(ctx, 2),
         "C03" => c03::run(ctx),
+        "C04" => c04::run(ctx),
+        "C05" => c05::run(ctx),
         "C06" => c06::run(ctx),
         "C07" => c07::run(ctx),
         "C13" => c13::run(ctx),
